@@ -156,8 +156,53 @@ class Terms(object):
         for sub in ast.walk(fn):
             if isinstance(sub, ast.FunctionDef) and sub is not fn:
                 self._nested.setdefault(sub.name, sub)
+        # loops / generators that iterate an expression some earlier loop of
+        # this function iterates too: their elements are independent values
+        # and get a tag (else both would be "an element of X")
+        self._dup_iter = {}
+        for sub in ast.walk(fn):
+            its = []
+            if isinstance(sub, ast.For):
+                its = [sub.iter]
+            elif isinstance(sub, (ast.ListComp, ast.SetComp, ast.DictComp,
+                                  ast.GeneratorExp)):
+                its = [g.iter for g in sub.generators]
+            for j, it in enumerate(its):
+                txt = unparse(it)
+                k = 0
+                # earlier generators of the same comprehension
+                if not isinstance(sub, ast.For):
+                    k += sum(1 for g in sub.generators[:j]
+                             if unparse(g.iter) == txt)
+                # enclosing loops / comprehensions (only nested iterations
+                # of one iterable are in scope together)
+                p_ = getattr(sub, "_parent", None)
+                child = sub
+                while p_ is not None and p_ is not fn:
+                    if isinstance(p_, ast.For) and child is not p_.iter \
+                            and unparse(p_.iter) == txt:
+                        k += 1
+                    elif isinstance(p_, (ast.ListComp, ast.SetComp,
+                                         ast.DictComp, ast.GeneratorExp)):
+                        k += sum(1 for g in p_.generators
+                                 if unparse(g.iter) == txt and
+                                 g.iter is not child)
+                    child, p_ = p_, getattr(p_, "_parent", None)
+                if k:
+                    self._dup_iter[id(it)] = "#%d" % k
         if hyps:
             self._assume(hyps)
+
+    def _tag(self, it_ast, t):
+        tag = self._dup_iter.get(id(it_ast))
+        if tag and t[0] == "elem" and len(t) == 2:
+            return t + (tag,)
+        if tag and t[0] == "tuple":
+            return ("tuple",) + tuple(self._tag(it_ast, x) if x[0] in (
+                "elem", "index") else x for x in t[1:])
+        if tag and t[0] == "index" and len(t) == 2:
+            return t + (tag,)
+        return t
 
     def under(self, *hyps):
         """The same function analysed only on the executions on which every
@@ -775,7 +820,7 @@ class Terms(object):
                                self._term(s.value, b.node, {}))
         base = self._term(b.value, b.node, {})
         if b.mode == "iter":
-            base = self._elem(base)
+            base = self._tag(b.value, self._elem(base))
         elif b.mode == "with":
             base = ("with", base)
         for i, n in b.path:
@@ -783,6 +828,11 @@ class Terms(object):
         return base
 
     def _elem(self, t):
+        if t[0] == "call" and t[1] == ("global", "range") and not t[3] and \
+                len(t[2]) == 1 and t[2][0][0] == "call" and \
+                t[2][0][1] == ("global", "len") and len(t[2][0][2]) == 1:
+            # k over range(len(x)): the position of an element of x
+            return ("index", t[2][0][2][0])
         if t[0] == "new" and t[2][0] in ("list", "set") and len(t[2]) > 1:
             t = t[2]
         inner = t[2] if t[0] == "new" else t
@@ -863,6 +913,13 @@ class Terms(object):
                         for x in idx[1:3]):
                 # a constant slice of a tuple display
                 return ("tuple",) + tuple(base[1:][idx[1][1]:idx[2][1]])
+            if idx == ("index", base):
+                # x[k] with k the position of an element of x
+                return ("elem", base)
+            if idx[0] == "slice" and idx[1] == ("const", None) and \
+                    idx[3] == ("const", None) and \
+                    idx[2] == ("call", ("global", "len"), (base,), ()):
+                return base               # x[:len(x)]
             if idx == ("elem", base):
                 # d[k] for k iterating d itself: the value of that entry
                 return ("comp", ("elem", ("items", base)), 1)
@@ -946,7 +1003,8 @@ class Terms(object):
             gens = []
             for g in e.generators:
                 it = T(g.iter, node, env2)
-                self._bind_target(g.target, self._elem(it), env2)
+                self._bind_target(g.target, self._tag(g.iter, self._elem(it)),
+                                  env2)
                 conds = tuple(T(c_, node, env2) for c_ in g.ifs)
                 gens.append((it, conds))
             if isinstance(e, ast.DictComp):
@@ -1279,17 +1337,27 @@ def yields(T, fn=None):
 
 
 def stores(T, fn=None):
-    """Subscript stores ``base[key] = value`` directly in T.fn:
+    """Subscript stores ``base[key] = value`` (and ``base[key] op= v``, whose
+    value is the combined term) directly in T.fn:
     [(node, statement, base term, key term, value term)]."""
     out = []
     for n in T.cfg.nodes:
         st = n.ast
-        if n.kind == "stmt" and isinstance(st, ast.Assign) and \
-                len(st.targets) == 1 and \
+        if n.kind != "stmt":
+            continue
+        if isinstance(st, ast.Assign) and len(st.targets) == 1 and \
                 isinstance(st.targets[0], ast.Subscript):
             tgt = st.targets[0]
             out.append((n, st, T.term(tgt.value, n),
                         T._index(tgt.slice, n, {}), T.term(st.value, n)))
+        elif isinstance(st, ast.AugAssign) and \
+                isinstance(st.target, ast.Subscript):
+            tgt = st.target
+            base = T.term(tgt.value, n)
+            key = T._index(tgt.slice, n, {})
+            old = T.term(tgt, n)
+            out.append((n, st, base, key, T._binop(
+                type(st.op).__name__, old, T.term(st.value, n))))
     return out
 
 
